@@ -79,7 +79,7 @@ func init() {
 		Run:   runR027,
 	})
 	core.Register(&core.Rule{
-		ID: "R10.9", Generated: true,
+		ID: "R10.9", Generated: true, GeneratedRoot: true,
 		Title: "two nil pointers are equal",
 		Text: "In every generated Equals with a pointer receiver that tests its operands against nil: no `return false` is reachable before the identity test `receiver == other` has been found false. " +
 			"With the nil test first, nil.Equals(nil) is false while the hash of both is the zero hash, and an absent optional record differs from itself.",
@@ -2335,7 +2335,7 @@ func runR1211(c *core.Ctx) {
 
 func init() {
 	core.Register(&core.Rule{
-		ID: "R13.5", Generated: true,
+		ID: "R13.5", Generated: true, GeneratedRoot: true,
 		Title: "a field that is present in the document is never left nil",
 		Text: "In every generated field decoder (a case clause of the switch over the field name): an optional or defaulted field (pointer-typed) is assigned new(T) / &v before it is filled, " +
 			"or the result of a function none of whose returns pairs a nil pointer with an error that may be nil (the callee's returns are read in the runtime's source). " +
